@@ -110,6 +110,15 @@ def gen_config(rng, profile="any", tier="quick"):
         if all(e is None or e > end for e in entries.values()) and rng.random() < 0.8:
             entries[assets[0]] = start
     cfg["universe"] = {"kind": "dynamic", "entries": entries} if dynamic else {"kind": "static", "assets": list(assets)}
+    if (not dynamic) and profile in ("C14", "C09", "any", "C07") and rng.random() < 0.25 and n_assets > 1:
+        # a user-defined Universe (subclass of the documented extension point) from which assets LEAVE
+        leave = {}
+        for a in rng.sample(assets, rng.randrange(1, n_assets)):
+            leave[a] = (rng.choice(sched) + rng.choice([0, 0, 60])) if (sched and rng.random() < 0.6) else \
+                (start + rng.randrange(0, max(1, end - start)))
+        cfg["universe"] = {"kind": "leaving", "assets": list(assets), "leave": leave}
+    if dynamic and rng.random() < 0.3:
+        cfg["universe"]["absent_as_nat"] = True
     if dynamic and rng.random() < 0.3:
         # the same instants, written down in other time zones (tz-aware timestamps are legal entry dates)
         cfg["universe"]["tz"] = dict((a, rng.choice(["US/Eastern", "Asia/Tokyo", "Europe/London", "UTC"])) for a in assets)
@@ -147,7 +156,7 @@ def gen_config(rng, profile="any", tier="quick"):
             e = entries[a]
             if e is not None and e < first and profile != "C07":
                 entries[a] = first + rng.choice([0, CLOSE_S - OPEN_S])
-    elif profile not in ("C07", "any"):
+    elif profile not in ("C07", "any") or cfg["universe"]["kind"] == "leaving":
         # static universe: every asset needs a price at the first rebalance
         for sym in syms:
             rows = market["assets"][sym]["rows"]
@@ -201,7 +210,7 @@ def gen_config(rng, profile="any", tier="quick"):
                 w[ks[-1]] = -w[ks[-1]]
         if rng.random() < 0.06:
             w = dict((a, 0.0) for a in w)                           # all-zero weights
-        if dynamic is False and rng.random() < 0.1 and len(assets) > 1:
+        if dynamic is False and cfg["universe"]["kind"] == "static" and rng.random() < 0.1 and len(assets) > 1:
             # a weight for an asset outside the universe (it has data, it is just not a member)
             out = assets[-1]
             cfg["universe"]["assets"] = [a for a in assets if a != out]
@@ -471,7 +480,7 @@ class Outcome(object):
 
 def rb_assets(cfg):
     u = cfg["universe"]
-    return list(u["assets"]) if u["kind"] == "static" else sorted(u["entries"])
+    return list(u["assets"]) if u["kind"] in ("static", "leaving") else sorted(u["entries"])
 
 
 _HEX = re.compile(r"[0-9a-f]{32}")
@@ -502,11 +511,26 @@ def build_session(cfg, dirpath, shared_source=None, shared_inputs=None):
     u = cfg["universe"]
     if shared_inputs is not None and "universe" in shared_inputs:
         universe = shared_inputs["universe"]
+    elif u["kind"] == "leaving":
+        from qstrader.asset.universe.universe import Universe
+
+        class LeavingUniverse(Universe):
+            """harness stub: a universe whose members can leave (the shipped ones only grow)"""
+
+            def __init__(self, assets, leave):
+                self._assets = list(assets)
+                self._leave = dict((a, ts(t)) for a, t in leave.items())
+
+            def get_assets(self, dt):
+                return [a for a in self._assets if a not in self._leave or dt < self._leave[a]]
+        universe = LeavingUniverse(u["assets"], u["leave"])
     elif u["kind"] == "static":
         universe = StaticUniverse(list(u["assets"]))
     else:
         tzs = u.get("tz") or {}
-        universe = DynamicUniverse(dict((a, ((ts(e).tz_convert(tzs[a]) if tzs.get(a) else ts(e)) if e is not None else None))
+        import pandas as _pd
+        absent = _pd.NaT if u.get("absent_as_nat") else None      # "no entry date" written as NaT instead of None
+        universe = DynamicUniverse(dict((a, ((ts(e).tz_convert(tzs[a]) if tzs.get(a) else ts(e)) if e is not None else absent))
                                         for a, e in u["entries"].items()))
     data_handler = None
     if shared_source is not None:
